@@ -345,6 +345,8 @@ func (a *AggregatePlan) Batch(ctx *ExecuteCtx) ([][]Column, error) {
 		}
 		if nrows <= restSkips {
 			a.skips += nrows
+			// All rows of this batch are skipped
+			rows = nil
 		} else {
 			a.skips += restSkips
 			rows = rows[restSkips:]
